@@ -9,7 +9,8 @@ def get_keywordarg_dict(klass, is_mixin=False):
     init_dicts = {}
     if not is_mixin:
         init_dicts = {}
-        args, varargs, varkw, defaults = inspect.getargspec(klass.__init__)
+        args, varargs, varkw, defaults = \
+            inspect.getfullargspec(klass.__init__)[:4]
         log.debug('Inpection {} {} {} {}'.format(args,
                                                  varargs,
                                                  varkw,
